@@ -88,6 +88,7 @@ func init() {
 			h("cont.H_Hist", noAs2(hist(1, 3, 3, 1, 1)), noAs2(hist(1, 3, 3, 1, 2)), histCov, 30, histDesc),
 			h("cont.H_Hist", noAs2(hist(0, 2, 3, 1, 1)), noAs2(hist(0, 2, 4, 2, 1)), histCov, 0, histDesc),
 			h("cont.H_OptionalFault", map[string]int{"rounds": 3, "order_schemes": 1}, map[string]int{"rounds": 4, "order_schemes": 2}, []string{"consumer_built", "built_around_failure"}, 10, "a scoped or transient consumer whose parameter object has an optional field of a transient type (3 shapes), constructed in several scopes while the optional dependency's constructor fails (error / panic) at a symbolic invocation: no two consumers receive one transient instance, and a consumer built while the dependency could not be constructed holds nothing in that field"),
+			h("cont.H_Hist", noAs2(hist(7, 3, 3, 0, 1)), noAs2(hist(7, 3, 4, 1, 2)), histCov, 0, histDesc+"; profile 7: one interface type registered both as an unkeyed service and as the element type of a value group (members with their own lifetimes), and consumers taking the group: what a consumer receives for the group is decided by the members, never by the unkeyed registration of the element type"),
 		}},
 		propertySpec{ID: "C04", Harnesses: []harnessSpec{
 			h("cont.H_Hist", noAs2(hist(0, 2, 3, 1, 1)), noAs2(hist(0, 2, 4, 2, 1)), histCov, 30, histDesc),
